@@ -353,9 +353,13 @@ def adjust_intervals(
             if labels is not None:
                 labels.append(end_label)
 
-    # Cropping can leave zero-duration intervals behind (e.g. when an interval
-    # boundary coincides with t_min or t_max); drop them
-    keep = intervals[:, 1] > intervals[:, 0]
+    # Intervals lying completely outside the range collapse onto t_min or
+    # t_max when clipped; drop those zero-duration leftovers (anything else
+    # that is malformed is left for validate_intervals to report)
+    collapsed = (intervals[:, 0] == intervals[:, 1]) & np.isin(
+        intervals[:, 0], [t for t in (t_min, t_max) if t is not None]
+    )
+    keep = ~collapsed
     if not keep.all():
         intervals = intervals[keep]
         if labels is not None:
